@@ -1,6 +1,8 @@
 import Swim.Util.Parse
 import Swim.Model.Verify
 import Swim.Drv.Merge
+import Swim.Drv.Msgpack
+import Swim.Gen.Facts
 /-! Driver side of the C09 correspondences. -/
 namespace Swim.Drv.C09
 open Swim.Parse Swim.Verify
@@ -106,6 +108,34 @@ def handleCap (fs : List (String × String)) : String :=
     | _ => true
   verdict bads.isEmpty (if bads.isEmpty then none else some ("size-cap-not-enforced:" ++ String.intercalate "," bads)) true "cap" ""
 
+/-- the state exchange a real node wrote (`stream` = type byte + framing) against the msgpack model:
+the model parser must read it completely, its re-encoding must be the same bytes, and the parsed
+node states and user state must be the sender's own (nil and empty byte strings are not told apart
+by the sender's snapshot) -/
+def handlePpf (fs : List (String × String)) : String := Id.run do
+  if (get fs "err").isSome then return "PARSE create"
+  let some stream := (get fs "stream").bind hexBytes | return "PARSE stream"
+  let statesS := (getD fs "states" "-")
+  let userS := getD fs "user" "E"
+  let loose (v : Swim.Msgpack.Val) : String := match v with
+    | .bytes none => "E" | v => Swim.Drv.Msgpack.showVal v
+  match stream with
+  | [] => return "PARSE empty-stream"
+  | t :: body =>
+    match Swim.Msgpack.decPushPull body with
+    | none => return verdict false (some "state-exchange-not-parsed-by-the-model") true "ppf" ""
+    | some (join, sts, user, rest) =>
+      let re := Swim.Msgpack.encPushPull join sts user
+      let got := String.intercalate "|" (sts.map fun st => String.intercalate ";" (st.map loose))
+      let gotS := if sts.isEmpty then "-" else got
+      let userGot := Swim.Drv.Msgpack.hexs user
+      let agree := re == body && rest.isEmpty && t.toNat == Swim.Gen.c_pushPullMsg && join
+      let bad : Option String :=
+        if gotS != statesS then some s!"exchange-carries-other-node-states-than-the-sender-holds:{gotS}"
+        else if userGot != userS then some "exchange-carries-another-user-state-than-the-delegate-gave"
+        else none
+      return verdict agree bad (sts.length ≥ 3) s!"ppf-{min sts.length 4}" (if agree then "" else s!"reencoded={re == body},rest={rest.length},type={t.toNat}")
+
 def handle (kind : String) (fs : List (String × String)) : String :=
   match kind with
   | "vp" => handleVp fs
@@ -113,6 +143,7 @@ def handle (kind : String) (fs : List (String × String)) : String :=
   | "join" => handleJoin fs
   | "cut" => handleOracle fs "cut"
   | "cap" => handleCap fs
+  | "ppf" => handlePpf fs
   | _ => "PARSE kind"
 
 end Swim.Drv.C09
